@@ -130,10 +130,12 @@ from .common import rule_module_state  # noqa: E402
 def rule_ods_rows_keep_their_cells(ctx):
     """O4.5: the item count that is checked is the sheet's: the ODS reader keeps empty rows and (runs of) empty cells at the
     end of a row (C15's table)."""
-    from .c15 import rule_empty_rows
+    from .c15 import rule_empty_rows, rule_row_containers_and_covered_cells
 
     ctx.res.minimum("O4.5", 1)
     rule_empty_rows(ctx, "O4.5")
+    # ... and the positions hidden by a merged cell (covered cells, also as a run) and rows inside row containers
+    rule_row_containers_and_covered_cells(ctx, "O4.9")
 
 
 def rule_items_are_the_cells_of_the_sheet(ctx):
